@@ -149,9 +149,16 @@ class Gen:
         # new computed value
         return self.arith(scope, ind)
 
+    def pick_recent(self, scope):
+        """A value for a conditional's result: half of the time one of the most recently defined ones (so that nested regions use
+        values defined shortly before the region op)."""
+        pool = scope["i32"]
+        return self.rng.choice(pool[-3:]) if self.rng.random() < 0.5 else self.rng.choice(pool)
+
     def arith(self, scope, ind):
         rng = self.rng
-        a = rng.choice(scope["i32"])
+        # chains: half of the operands are recent values
+        a = rng.choice(scope["i32"][-3:]) if rng.random() < 0.5 else rng.choice(scope["i32"])
         b = rng.choice(scope["i32"])
         op = rng.choice(["addi", "muli", "subi", "xori"])
         v = self.fresh()
@@ -173,18 +180,42 @@ class Gen:
                 self.cond(ind, scope, depth, in_loop)
             elif r < 0.92:
                 self.call(ind, scope)
-            elif r < 0.96:
+            elif r < 0.95:
                 self.arith(scope, ind)
+            elif r < 0.985:
+                self.nested_use(ind, scope)
             else:
                 self.testop(ind, scope)
 
-    def launch(self, ind, scope, acc=None):
+    def nested_use(self, ind, scope):
+        """A configuration value that reaches its setup only through the region of a pure conditional:
+        v = arith ..; r = scf.if c -> (i32) { yield v } else { yield w }; setup(.. = r ..); launch."""
+        rng = self.rng
+        v = self.arith(scope, ind)
+        self.ifs += 1
+        c = f"%cond{self.ifs}"
+        self.args.append(ArgSpec(c, "i1", "cond"))
+        w = rng.choice(scope["i32"])
+        r = self.fresh("r")
+        self.emit(ind, f"{r} = scf.if {c} -> (i32) {{")
+        self.emit(ind + 1, f"scf.yield {v} : i32")
+        self.emit(ind, "} else {")
+        self.emit(ind + 1, f"scf.yield {w} : i32")
+        self.emit(ind, "}")
+        scope["i32"].append(r)
+        self.features.add("value-through-pure-conditional")
+        self.skel.append("N")
+        self.launch(ind, scope, force_val=r)
+
+    def launch(self, ind, scope, acc=None, force_val=None):
         rng = self.rng
         acc = acc or rng.choice(list(self.accs))
         fields = self.accs[acc]
         self.budget -= 1
         self.launch_sites += 1
         vals = [self.pick_val(scope, ind) for _ in fields]
+        if force_val is not None and vals:
+            vals[rng.randrange(len(vals))] = force_val
         s = self.fresh("s")
         params = ", ".join(f'"{f}" = {v} : i32' for f, v in zip(fields, vals))
         prev = scope["states"].get(acc)
@@ -211,7 +242,7 @@ class Gen:
                 f'{t} = "accfg.launch"({s}) <{{param_names = [], accelerator = "{acc}"}}> : (!accfg.state<"{acc}">) -> !accfg.token<"{acc}">',
             )
         # sometimes other ops between launch and await
-        if rng.random() < 0.2:
+        if rng.random() < 0.3:
             self.arith(scope, ind)
         self.emit(ind, f'"accfg.await"({t}) : (!accfg.token<"{acc}">) -> ()')
         self.skel.append("L" + acc[3:])
@@ -344,7 +375,7 @@ class Gen:
             self.emit(ind, f"scf.if {c} {{")
         self.block(ind + 1, then_scope, depth + 1, rng.randint(0 if has_else else 1, 3), in_loop)
         if with_res:
-            self.emit(ind + 1, f"scf.yield {', '.join(rng.choice(then_scope['i32']) for _ in range(nres))} : {', '.join(['i32'] * nres)}")
+            self.emit(ind + 1, f"scf.yield {', '.join(self.pick_recent(then_scope) for _ in range(nres))} : {', '.join(['i32'] * nres)}")
         else:
             self.emit(ind + 1, "scf.yield")
         if has_else:
@@ -352,7 +383,7 @@ class Gen:
             self.emit(ind, "} else {")
             self.block(ind + 1, else_scope, depth + 1, rng.randint(0, 3), in_loop)
             if with_res:
-                self.emit(ind + 1, f"scf.yield {', '.join(rng.choice(else_scope['i32']) for _ in range(nres))} : {', '.join(['i32'] * nres)}")
+                self.emit(ind + 1, f"scf.yield {', '.join(self.pick_recent(else_scope) for _ in range(nres))} : {', '.join(['i32'] * nres)}")
             else:
                 self.emit(ind + 1, "scf.yield")
         self.emit(ind, "}")
